@@ -1,1 +1,162 @@
 // Kani contract harnesses for /repo/parquet/src/arrow/buffer/offset_buffer.rs (child module: sees private items via super::)
+use super::*;
+#[path = "/verif/kani/support/spec.rs"]
+mod spec;
+#[allow(unused_imports)]
+use spec::*;
+
+fn is_continuation(b: u8) -> bool { b & 0xC0 == 0x80 }
+
+// Contract (C08): OffsetBuffer::<i32>::try_push on arbitrary bytes, any sequence of three pushes of L1, L2, L3 bytes
+// (lengths concrete per harness, contents and the validate flags symbolic):
+//   Err <=> validate_utf8 and the first byte of the value is a UTF-8 continuation byte (10xxxxxx) -- a code point split
+//   at a value boundary; an Err leaves offsets and values untouched (frame);
+//   after the sequence offsets = [0, prefix sums of the accepted lengths] (monotone, last = len(values)) and values is
+//   the concatenation of the accepted values.
+macro_rules! try_push_unit {
+    ($name:ident, $l1:expr, $l2:expr, $l3:expr) => {
+        #[kani::proof]
+        #[kani::unwind(8)]
+        #[kani::stub(alloc::fmt::format, stub_format)]
+        fn $name() {
+            let (a, b, c): ([u8; $l1], [u8; $l2], [u8; $l3]) = (kani::any(), kani::any(), kani::any());
+            let (va, vb, vc): (bool, bool, bool) = (kani::any(), kani::any(), kani::any());
+            let mut buf = OffsetBuffer::<i32>::with_capacity(0);
+            assert!(buf.len() == 0 && buf.is_empty() && buf.offsets.len() == 1 && buf.offsets[0] == 0);
+            let mut exp_off = [0i32; 4]; let mut exp_n = 1usize; let mut exp_len = 0usize;
+            let mut exp_bytes = [0u8; $l1 + $l2 + $l3 + 1];
+            macro_rules! step { ($d:expr, $v:expr) => {{
+                let d: &[u8] = &$d;
+                let reject = $v && d.len() > 0 && is_continuation(d[0]);
+                match buf.try_push(d, $v) {
+                    Ok(()) => {
+                        assert!(!reject);
+                        let mut i = 0; while i < d.len() { exp_bytes[exp_len + i] = d[i]; i += 1; }
+                        exp_len += d.len(); exp_off[exp_n] = exp_len as i32; exp_n += 1;
+                    }
+                    Err(e) => { std::mem::forget(e); assert!(reject); }
+                }
+                assert!(buf.offsets.len() == exp_n && buf.len() == exp_n - 1 && buf.values.len() == exp_len);
+            }}; }
+            step!(a, va); step!(b, vb); step!(c, vc);
+            let i: usize = kani::any(); kani::assume(i < exp_n);
+            assert!(buf.offsets[i] == exp_off[i]);
+            if i > 0 { assert!(buf.offsets[i - 1] <= buf.offsets[i]); }
+            assert!(buf.offsets[exp_n - 1] as usize == buf.values.len());
+            let j: usize = kani::any();
+            if j < exp_len { assert!(buf.values[j] == exp_bytes[j]); }
+            kani::cover!(exp_n == 4);                                       // everything accepted
+            let empties = ($l1 == 0) as usize + ($l2 == 0) as usize + ($l3 == 0) as usize;
+            kani::cover!(exp_n == 1 + empties);                             // every non-empty value rejected (empty values always pass)
+            kani::cover!(exp_n == 3);
+        }
+    };
+}
+// @unit name=try_push_4_4_4 props=C08 kind=bounded bound=3_pushes_of_4_bytes fns=OffsetBuffer::try_push,OffsetBuffer::with_capacity,OffsetBuffer::len timeout=600
+try_push_unit!(try_push_4_4_4, 4, 4, 4);
+// @unit name=try_push_1_3_2 props=C08 kind=bounded bound=3_pushes_of_1,3,2_bytes fns=OffsetBuffer::try_push timeout=600 tier=thorough
+try_push_unit!(try_push_1_3_2, 1, 3, 2);
+// @unit name=try_push_2_0_4 props=C08 kind=bounded bound=3_pushes_of_2,0,4_bytes fns=OffsetBuffer::try_push timeout=600 tier=thorough
+try_push_unit!(try_push_2_0_4, 2, 0, 4);
+
+/// RFC 3629 well-formedness of a byte string (Unicode Table 3-7), written as a table walk
+fn wf_utf8(b: &[u8]) -> bool {
+    let n = b.len(); let mut i = 0;
+    while i < n {
+        let b0 = b[i];
+        let (need, lo, hi) =
+            if b0 < 0x80 { (0, 0x80, 0xBF) }
+            else if b0 >= 0xC2 && b0 <= 0xDF { (1, 0x80, 0xBF) }
+            else if b0 == 0xE0 { (2, 0xA0, 0xBF) }
+            else if (b0 >= 0xE1 && b0 <= 0xEC) || b0 == 0xEE || b0 == 0xEF { (2, 0x80, 0xBF) }
+            else if b0 == 0xED { (2, 0x80, 0x9F) }
+            else if b0 == 0xF0 { (3, 0x90, 0xBF) }
+            else if b0 >= 0xF1 && b0 <= 0xF3 { (3, 0x80, 0xBF) }
+            else if b0 == 0xF4 { (3, 0x80, 0x8F) }
+            else { return false; };
+        if i + need >= n && need > 0 { return false; }
+        if need >= 1 && !(b[i + 1] >= lo && b[i + 1] <= hi) { return false; }
+        if need >= 2 && !is_continuation(b[i + 2]) { return false; }
+        if need >= 3 && !is_continuation(b[i + 3]) { return false; }
+        i += need + 1;
+    }
+    true
+}
+
+// Contract (C08): the two-level UTF-8 validation of the byte-array reader is sound: if every value was pushed with
+// validate_utf8 = true (so no value starts with a continuation byte) and check_valid_utf8(0) accepts the concatenation,
+// then EVERY individual value is well-formed UTF-8 (RFC 3629) -- no code point is split across a value boundary; and
+// conversely well-formed values are accepted by both checks. Two values of L1 and L2 arbitrary bytes.
+macro_rules! utf8_boundary_unit {
+    ($name:ident, $l1:expr, $l2:expr) => {
+        #[kani::proof]
+        #[kani::unwind(8)]
+        #[kani::stub(alloc::fmt::format, stub_format)]
+        fn $name() {
+            let (a, b): ([u8; $l1], [u8; $l2]) = (kani::any(), kani::any());
+            let mut buf = OffsetBuffer::<i32>::with_capacity(0);
+            let pa = buf.try_push(&a, true); let pb = buf.try_push(&b, true);
+            let pushed = pa.is_ok() && pb.is_ok();
+            std::mem::forget(pa); std::mem::forget(pb);
+            let chk = buf.check_valid_utf8(0);
+            let accepted = pushed && chk.is_ok();
+            std::mem::forget(chk);
+            let each_wf = wf_utf8(&a) && wf_utf8(&b);
+            assert!(accepted == each_wf);
+            kani::cover!(accepted && a[0] >= 0xE0);
+            kani::cover!(!pushed);
+            kani::cover!(pushed && !accepted);
+        }
+    };
+}
+// @unit name=utf8_value_boundary_2_2 props=C08 kind=bounded bound=2_values_of_2_bytes fns=OffsetBuffer::try_push,OffsetBuffer::check_valid_utf8,check_valid_utf8 timeout=900 mem=4 tier=thorough confirmed=no_(not_seen_to_finish_under_load)
+utf8_boundary_unit!(utf8_value_boundary_2_2, 2, 2);
+// @unit name=utf8_value_boundary_3_1 props=C08 kind=bounded bound=values_of_3_and_1_bytes fns=OffsetBuffer::try_push,OffsetBuffer::check_valid_utf8,check_valid_utf8 timeout=900 mem=4 tier=thorough confirmed=no_(not_seen_to_finish_under_load)
+utf8_boundary_unit!(utf8_value_boundary_3_1, 3, 1);
+// @unit name=utf8_value_boundary_1_3 props=C08 kind=bounded bound=values_of_1_and_3_bytes fns=OffsetBuffer::try_push,OffsetBuffer::check_valid_utf8,check_valid_utf8 timeout=900 mem=4 tier=thorough confirmed=no_(not_seen_to_finish_under_load)
+utf8_boundary_unit!(utf8_value_boundary_1_3, 1, 3);
+
+// Contract (C08): extend_from_dictionary(keys, dict_offsets, dict_values) on a well-formed dictionary (offsets start at 0,
+// monotone, within dict_values: "verified when decoding the dictionary page") and 2 keys:
+//   Err <=> some key k is not a valid entry index, i.e. (k as usize) + 1 >= len(dict_offsets);
+//   Ok  => one offset per key was appended, offsets are the prefix sums of the selected entry lengths and values is
+//   the concatenation of the selected dictionary entries; the call never panics.
+// Keys are i32 decoded from untrusted page bytes with an RLE bit width of up to 32, so every i32 can occur:
+//  - `extend_from_dictionary_2keys`: keys >= 0 (or any negative key other than -1 is fine too; stated for keys >= 0);
+//  - `extend_from_dictionary_untrusted_keys`: ALL i32 keys. This unit FAILS on the unchanged tree (finding F5): for the
+//    key -1 (0xFFFF_FFFF) `index + 1` overflows (debug: panic "attempt to add with overflow"; release: wraps to 0, the
+//    bounds test passes and `dict_offsets[usize::MAX]` panics) instead of returning Err.
+macro_rules! extend_dict_unit {
+    ($name:ident, $any_keys:expr) => {
+        #[kani::proof]
+        #[kani::unwind(8)]
+        #[kani::stub(alloc::fmt::format, stub_format)]
+        fn $name() {
+            let keys: [i32; 2] = kani::any();
+            if !$any_keys { kani::assume(keys[0] >= 0 && keys[1] >= 0); }
+            let dict_values: [u8; 4] = kani::any();
+            let dict_offsets: [i32; 3] = kani::any();
+            kani::assume(dict_offsets[0] == 0 && dict_offsets[0] <= dict_offsets[1] && dict_offsets[1] <= dict_offsets[2] && dict_offsets[2] <= 4);
+            let mut buf = OffsetBuffer::<i32>::with_capacity(0);
+            let in_range = |k: i32| k >= 0 && k < 2;
+            match buf.extend_from_dictionary(&keys, &dict_offsets, &dict_values) {
+                Ok(()) => {
+                    assert!(in_range(keys[0]) && in_range(keys[1]));
+                    let (s0, e0) = (dict_offsets[keys[0] as usize], dict_offsets[keys[0] as usize + 1]);
+                    let (s1, e1) = (dict_offsets[keys[1] as usize], dict_offsets[keys[1] as usize + 1]);
+                    assert!(buf.offsets.len() == 3 && buf.offsets[0] == 0 && buf.offsets[1] == e0 - s0 && buf.offsets[2] == (e0 - s0) + (e1 - s1));
+                    assert!(buf.values.len() == buf.offsets[2] as usize);
+                    let j: usize = kani::any();
+                    let l0 = (e0 - s0) as usize;
+                    if j < buf.values.len() { assert!(buf.values[j] == if j < l0 { dict_values[s0 as usize + j] } else { dict_values[s1 as usize + j - l0] }); }
+                    kani::cover!(keys[0] == 1 && keys[1] == 0 && buf.values.len() == 4);
+                }
+                Err(e) => { std::mem::forget(e); assert!(!(in_range(keys[0]) && in_range(keys[1]))); kani::cover!(keys[1] == 2); kani::cover!(keys[0] == i32::MAX); }
+            }
+        }
+    };
+}
+// @unit name=extend_from_dictionary_2keys props=C08 kind=bounded bound=2_non-negative_keys_2_dictionary_entries_<=4_bytes fns=OffsetBuffer::extend_from_dictionary timeout=900 mem=4 tier=thorough
+extend_dict_unit!(extend_from_dictionary_2keys, false);
+// @unit name=extend_from_dictionary_untrusted_keys props=C08 kind=bounded bound=2_arbitrary_i32_keys_2_dictionary_entries_<=4_bytes fns=OffsetBuffer::extend_from_dictionary timeout=900 mem=4
+extend_dict_unit!(extend_from_dictionary_untrusted_keys, true);
